@@ -18,6 +18,9 @@ CLAIMED = {
  "C10": ("exploration", "Hypothesis layouts/values/orders vs big-integer reference codec + exhaustive narrow fields", "4 C10",
          "Generated-input search over layouts (any width/alignment/blob/order/prior content) against a big-integer reference codec, plus exhaustive enumeration of narrow fields; exploration, not proof: the wide-field space is sampled with boundary bias.",
          "reference codec in props/c10_codec.py; XOR contract (field bits zero before encoding)"),
+ "C12": ("exploration", "model-based stateful PBT against a simulated conformant target (independent CDB decoder) with a lock-step reference model; SG_IO vs iSCSI differential", "4 C12",
+         "Generated histories of write/write-same/read/sync/capacity/inquiry facade calls over both transports against a simulated SBC target that decodes CDBs with the independent standards model and audits transport lengths; every read is compared with a reference model of the medium kept by the check; capacities up to 2^64-1 blocks.",
+         "simulated target pbt/standins/target.py + stdspec; binding stand-ins; protection information not modelled; NUMBER OF LOGICAL BLOCKS=0 not generated"),
  "C14": ("exploration", "exhaustive enumeration vs independent T10 table (differential oracle)", "4 C14",
          "Every table entry, service action, status code and all 256 opcode values are enumerated completely and compared with an independent transcription of T10's assignments; absence of a wrong value is established for the names the model knows, consistency only for the others.",
          "stdspec/opcodes.py (hand transcription of T10 op-num, SPC-4, SBC-3, SSC-4, SMC-3, MMC-6)"),
